@@ -41,7 +41,7 @@ PART = {
                 "leader's real key (stale epoch, nil / empty terms, expired timeout, threshold below minimum / above n, member dropped, genesis time / "
                 "seed changed, unknown scheme, beacon period changed / scheme changed towards a remainer and towards a leaver, leader not remaining / leaving / joining, foreign beacon id, fewer remaining members than the previous threshold made up by joiners), forged accept/reject/abort/execute packets "
                 "claiming leader / remainer / joiner / leaver / outsider (well signed or signed by somebody else), replays of recorded packets, commands "
-                "from the wrong node. Directed family 'left' (every 20th history; every second one goes straight to the re-invitation): epoch 1, 1-2 reshares with everybody remaining, a reshare in which "
+                "from the wrong node, answers (accept / join) held between their read of the record and their write while the leader's abort packet arrives. Directed family 'left' (every 20th history; every second one goes straight to the re-invitation): epoch 1, 1-2 reshares with everybody remaining, a reshare in which "
                 "node X leaves and the others complete (X holds Left@E, E>=3, finished E-1), optionally one more epoch without X; X is then sent 16 "
                 "invalid invitation classes correctly signed by a current member (stale epochs E, E-1, E-2, epoch 1 in first-proposal shape, expired "
                 "timeout, threshold low/high, unknown scheme, genesis time/seed changed, leader joining/leaving, nil/empty terms, foreign beacon "
